@@ -314,6 +314,71 @@ func TestC03(t *testing.T) {
 		}
 	}
 
+	// second ClientHellos: after a HelloRetryRequest that carries a cookie the hello sent again
+	// is still the spec's - same extension sequence, the cookie extension added once
+	hrr2 := 0
+	for pi, p := range AllParrots {
+		if PSKParrots[p.Name] {
+			continue
+		}
+		for k := 0; k < mon.Pick(2, 40); k++ {
+			probe, err := Target{Name: p.Name, ID: p.ID}.Probe("example.test")
+			if err != nil {
+				break
+			}
+			g := hrrGroupFor(probe)
+			if g == 0 || !OfferOf(probe, 0).Has(tls.VersionTLS13) {
+				break
+			}
+			cookie := randBytes(Sub("C03cookie", pi*100+k), []int{1, 32, 300}[k%3])
+			plan := &tls.VerifPlan{ForceGroup: g, ClearCookie: true, RewriteOut: func(isClient bool, data []byte) []byte {
+				if isClient || len(data) < 4 || data[0] != 2 {
+					return nil
+				}
+				sh, err := wire.ParseServerHello(data)
+				if err != nil || !sh.IsHRR {
+					return nil
+				}
+				sh.SetExt(wire.ExtCookie, vec16(cookie))
+				return sh.Marshal()
+			}}
+			h := RunCase(Target{Name: p.Name, ID: p.ID}, GridCase{Server: peer.ServerConfig(), Plan: plan}, "example.test", nil, peer.Opts{})
+			hs := wire.ClientHellos(h.C2S)
+			if len(hs) != 2 {
+				continue
+			}
+			c1, e1 := wire.ParseClientHello(hs[0])
+			c2, e2 := wire.ParseClientHello(hs[1])
+			if e1 != nil || e2 != nil {
+				r.Violation(map[string]string{"kind": "unparseable_hello", "parrot": p.Name, "hello": "2"}, fmt.Sprintf("%v / %v", e1, e2), mon.Hex(hs[1]))
+				continue
+			}
+			var t1, t2 []uint16
+			for _, t := range NormExtTypes(c1) {
+				if t != wire.ExtPadding {
+					t1 = append(t1, t)
+				}
+			}
+			cookies := 0
+			for _, t := range NormExtTypes(c2) {
+				if t == wire.ExtCookie {
+					cookies++
+					continue
+				}
+				if t != wire.ExtPadding {
+					t2 = append(t2, t)
+				}
+			}
+			if cookies != 1 || u16s(t1) != u16s(t2) {
+				r.Violation(map[string]string{"kind": "second_hello_differs_from_spec", "parrot": p.Name},
+					fmt.Sprintf("%s: after a HelloRetryRequest with a %d-byte cookie the second ClientHello carries %d cookie extension(s) and the extension sequence %s, the first one %s", p.Name, len(cookie), cookies, u16s(t2), u16s(t1)), map[string]any{"ch2": mon.Hex(hs[1])})
+			}
+			hrr2++
+		}
+	}
+	r.Count("second_hellos_after_cookie_hrr", int64(hrr2))
+	r.Floor("second_hellos_after_cookie_hrr", 30)
+
 	// resumed connections: the shape must still be the spec's (ticket / PSK bodies wildcard)
 	resumedChecked := 0
 	for _, p := range AllParrots {
